@@ -3797,6 +3797,26 @@ theorem C04_src_exit :
         if (run (.text ff) (init (.text ff)) ([.startTestRun] ++ progCalls ff 0 ks ++ [.stopTestRun]) : TextSt).tt.wasSuccessful
         then 0 else 1 :=
   ⟨rfl, rfl, fun _ _ => rfl⟩
+/-- **C04 (source: what a new run resets in the stream adapter; assignments to the forwarder's `shouldStop`).**
+`ExtendedToStreamDecorator.startTestRun` tells the base classes, then resets the tag context, `shouldStop`, the clock and sets
+`_started` (`e2sStart`: every own field but `failfast` — the installed `StreamFailFast` target stays — and the recorder-side `sent`
+is back at its default); `failfast` is "a second target is installed"; `ThreadsafeForwardingResult._set_shouldStop` has an empty body
+(the assignment the base class's `__init__` makes is dropped, so constructing a forwarder does not touch the target). -/
+theorem C04_src_run_resets :
+    TTV.Generated.ResCtlSrc.tfrInit = TTV.SrcRef.ResCtlSrc.tfrInit ∧
+    TTV.Generated.ResCtlSrc.tfrSetShouldStop = TTV.SrcRef.ResCtlSrc.tfrSetShouldStop ∧
+    TTV.Generated.ResCtlSrc.e2sInit = TTV.SrcRef.ResCtlSrc.e2sInit ∧
+    TTV.Generated.ResCtlSrc.e2sStartTestRun = TTV.SrcRef.ResCtlSrc.e2sStartTestRun ∧
+    TTV.Generated.ResCtlSrc.e2sGetFailfast = TTV.SrcRef.ResCtlSrc.e2sGetFailfast ∧
+    TTV.Generated.ResCtlSrc.e2sSetFailfast = TTV.SrcRef.ResCtlSrc.e2sSetFailfast ∧
+    TTV.SrcRef.ResCtlSrc.tfrSetShouldStop = ["def(self, a0):"] ∧
+    ("  self.shouldStop = False" ∈ TTV.SrcRef.ResCtlSrc.e2sStartTestRun) ∧
+    (∀ {σ : Type} (I : Iface σ) (own : E2S) (inner : σ),
+      (e2sStart I own inner).1 = { started := true, failfast := own.failfast, sent := own.sent } ∧
+      (e2sStart I own inner).1.shouldStop = false ∧ (e2sStart I own inner).1.now = .none ∧
+      (e2sStart I own inner).1.tags = {} ∧ (e2sStart I own inner).2 = I.step inner .startTestRun) := by
+  refine ⟨rfl, rfl, rfl, rfl, rfl, rfl, rfl, by decide, fun _ _ _ => ⟨rfl, rfl, rfl, rfl, rfl⟩⟩
+
 end src
 
 end TTV.Props.C04
